@@ -483,7 +483,7 @@ func runC06(c *Ctx, r *Report, tier string) {
 						continue
 					}
 				}
-				path, ok := c.MustPass(po, isInstr(ret), orPred(mark, c.isCallTo("newErrorf", "newError")), func(l Lit) bool { return l.Pos && strings.HasPrefix(l.Term, "nonnil(phi{") }, nil)
+				path, ok := c.mustPassOrErr(po, ret, orPred(mark, c.isCallTo("newErrorf", "newError")))
 				r.Check(ok, "SUPPLIED", c.fname(po), "an accepted occurrence marks the option as supplied", c.ipos(ret), "every nil-error path passes Option.Set or a store isSet = true", "an occurrence is accepted without marking the option set, so a required option given this way is reported missing: "+pathStr(path))
 			}
 		}
